@@ -130,6 +130,7 @@ def leaf_spaces():
 def universe(rng: random.Random, n_composite: int):
     leaves = leaf_spaces()
     spaces = list(leaves)
+    # composites with Dict components whose keys are deliberately NOT in sorted order are added at the end
     for _ in range(n_composite):
         def comp(depth):
             if depth == 0 or rng.random() < 0.5:
@@ -256,8 +257,25 @@ def rec_space(t, probes, others, keys, rng) -> list:
             fl = np.asarray(space.flatten_sample(q))
             evs.append(dict(ev="flatten", v=proj_value(q), len=int(fl.shape[0]) if fl.ndim == 1 else -1,
                             flat_size=int(space.flat_size), vals=[enc(c) for c in fl.reshape(-1)]))
-    for o in others:
-        ev = dict(ev="eq", other=o, res=False, hash_ok=True, hash_equal=False)
+    def reorder(tt):
+        """the same Dict keys in another order, at the first Dict found (None if there is none with >= 2 keys)"""
+        if tt["k"] == "Dict" and len(tt["keys"]) >= 2:
+            c = dict(tt)
+            c["keys"], c["subs"] = list(reversed(tt["keys"])), list(reversed(tt["subs"]))
+            return c
+        if tt["k"] in ("Tuple", "Dict"):
+            for i, sub in enumerate(tt["subs"]):
+                r = reorder(sub)
+                if r is not None:
+                    c = dict(tt)
+                    c["subs"] = list(tt["subs"])
+                    c["subs"][i] = r
+                    return c
+        return None
+
+    ro = reorder(t)
+    for o in list(others) + ([ro] if ro is not None else []):
+        ev = dict(ev="eq", other=o, res=False, hash_ok=True, hash_equal=False, open=(o is ro))
         other = build_space(o)
         ev["res"] = bool(space == other)
         try:
